@@ -26,7 +26,7 @@ SRV_REASONS = {
 }
 
 
-def run_scenarios(c, scenarios, tag, timeout=3000, judge_unanswered=True):
+def _run_once(c, scenarios, tag, timeout=3000, collect=None):
     vlib.build_repo_bins()
     work = vlib.workfile(c.pid, "proc")
     os.makedirs(work, exist_ok=True)
@@ -57,10 +57,10 @@ def run_scenarios(c, scenarios, tag, timeout=3000, judge_unanswered=True):
             cfgsig = "n=%s,hc=%s,cs=%s" % ("1" if r["meta"]["n"] == 1 else ">1", r["meta"]["hc"], r["meta"]["client_stats"])
             if sig:
                 cfgsig += ",sig@%s" % sig.get("mode")
-            c.violation("%s|process|%s|%s" % (c.pid, reason, cfgsig),
-                        "server binary, scenario %s: %s" % (r["meta"]["id"], reason),
-                        {"direction": "code->spec", "reason": reason, "scenario": r["scenario"], "observations": {kk: r.get(kk) for kk in ("started", "served", "hc", "final", "exit")},
-                         "threads": r["threads"], "verdict": verdict})
+            collect.append((r["meta"]["id"], "proc", reason, "%s|process|%s|%s" % (c.pid, reason, cfgsig),
+                            "server binary, scenario %s: %s" % (r["meta"]["id"], reason),
+                            {"direction": "code->spec", "reason": reason, "scenario": r["scenario"], "observations": {kk: r.get(kk) for kk in ("started", "served", "hc", "final", "exit")},
+                             "threads": r["threads"], "verdict": verdict}))
         if hit:
             bad_runs += 1
         else:
@@ -81,9 +81,44 @@ def run_scenarios(c, scenarios, tag, timeout=3000, judge_unanswered=True):
         for b in (verdict.get("bad", []) if not ok else []):
             for reason in sorted(set(b["why"]) & smine):
                 sec, rnd = sc.context_of(events, b["i"])
-                c.violation("%s|binary|%s" % (c.pid, reason), "server binary (scenario %s): %s" % ((sec or {}).get("scenario"), reason),
-                            {"direction": "code->spec", "reason": reason, "event_index": b["i"], "event": events[b["i"] - 1], "section": sec, "round": rnd[:40]})
+                collect.append(((sec or {}).get("scenario"), "srv", reason, "%s|binary|%s" % (c.pid, reason), "server binary (scenario %s): %s" % ((sec or {}).get("scenario"), reason),
+                                {"direction": "code->spec", "reason": reason, "event_index": b["i"], "event": events[b["i"] - 1], "section": sec, "round": rnd[:40]}))
         c.evaluations += sum(1 for e in events if e.get("ev") == "reply")
+    return runs
+
+
+def run_scenarios(c, scenarios, tag, timeout=3000):
+    """Runs the scenarios; a deviation is reported only if it shows again when the scenario is run again on its own
+    (up to two confirmation runs): processes, ports, timers and the scheduler are an environment that can hiccup, and a
+    genuine deviation of the code reproduces."""
+    found = []
+    runs = _run_once(c, scenarios, tag, timeout, found)
+    by_scen = {}
+    for f in found:
+        by_scen.setdefault(f[0], []).append(f)
+    for sid, items in by_scen.items():
+        sc_def = [s for s in scenarios if s["id"] == sid]
+        if not sc_def:
+            for f in items:
+                c.violation(f[3], f[4], f[5])
+            continue
+        confirmed = set()
+        for attempt in range(2):
+            again = []
+            saved = (c.states, c.transitions, c.evaluations, c.traces_validated, list(c.samples), list(c.models), list(c.notes))
+            c.seed += 1000 * (attempt + 1)
+            _run_once(c, sc_def, "%s_confirm%d" % (tag, attempt), timeout, again)
+            c.seed -= 1000 * (attempt + 1)
+            c.states, c.transitions, c.evaluations, c.traces_validated = saved[0], saved[1], saved[2], saved[3]
+            c.samples, c.models, c.notes = saved[4], saved[5], saved[6]
+            confirmed |= set((a[1], a[2]) for a in again)
+            if all((f[1], f[2]) in confirmed for f in items):
+                break
+        for f in items:
+            if (f[1], f[2]) in confirmed:
+                c.violation(f[3], f[4], f[5])
+            else:
+                c.notes.append("scenario %s: '%s' was observed once but did not reproduce in 2 confirmation runs; not reported (environment)" % (sid, f[2]))
     return runs
 
 
@@ -164,7 +199,14 @@ def binary_reply_stage(c):
     run_scenarios(c, scs, "binary")
 
 
-def binary_leak_stage(c):
+def binary_leak_stage(c, full=True):
+    if not full:
+        scs = [scen(0, num_workers=2, probe_socks=12, probe_rounds=1, source="file", fault_percentage=50, health_check=True, hc_conns=1,
+                    signal={"sig": "TERM", "mode": "idle", "delay_ms": 50}),
+               scen(1, num_workers=1, probe_socks=12, probe_rounds=1, source="env", client_stats=True, status_interval=1,
+                    seed="9d61b19deffd5a60ba844af492ec2cc44449c5697b326919703bac031cae7f60", signal={"sig": "INT", "mode": "idle", "delay_ms": 1300})]
+        run_scenarios(c, scs, "leak")
+        return
     scs = [scen(0, num_workers=2, probe_socks=20, probe_rounds=2, source="file", fault_percentage=50, client_stats=True, signal={"sig": "TERM", "mode": "idle", "delay_ms": 1200}),
            scen(1, num_workers=2, probe_socks=20, probe_rounds=2, source="env", health_check=True, hc_conns=2, signal={"sig": "INT", "mode": "idle", "delay_ms": 100}),
            scen(2, num_workers=1, probe_socks=10, probe_rounds=1, seed="9d61b19deffd5a60ba844af492ec2cc44449c5697b326919703bac031cae7f60")]
